@@ -84,6 +84,9 @@ def run(ctx):
         zz[rng.random(zz.shape) < 0.15] = znd
         acc.append(dict(pix=pl, zones=zz.tolist(), num_zones=nz + 1, nodata=-9999, znodata=znd, zdtype=zdtype, dtype=dtype, out=["float32", "float64"][k % 2],
                         name=[None, "zm"][k % 2]))
+        if dtype != "int16":
+            # float rasters whose declared nodata is NaN itself (the customary encoding of float rasters): NaN pixels are the missing ones
+            acc.append(dict(acc[-1], nodata=None, nodata_nan=True))
     res, log = core.run_impl("c16_impl.py", dict(kernel=kernel_all, big=big, acc=acc), timeout=3000)
     if res is None:
         ctx.violation("implementation run failed", dict(kind="impl-crash", log=log[-3000:]), found_input=False)
@@ -144,9 +147,12 @@ def run(ctx):
         for t, tres in enumerate(r["res"]):
             pflat = [float("nan") if p is None else p for row in c["pix"][t] for p in row]
             for k, (mean, count) in enumerate(tres):
-                why = spec_zone(pflat, zflat, k, c["nodata"], c["znodata"], mean, count, c["out"])
+                why = spec_zone(pflat, zflat, k, float("nan") if c.get("nodata_nan") else c["nodata"], c["znodata"], mean, count, c["out"])
                 if why:
-                    spec_fail.append((dict(m, t=t), why + " (accessor; NaN pixels must count as nodata)"))
+                    small = len(zflat) <= 40
+                    spec_fail.append((dict(m, t=t, nodata="nan" if c.get("nodata_nan") else c["nodata"], pix=[None if p != p else p for p in pflat] if small else None,
+                                           zones=zflat if small else None, zone=k, mean=None if mean != mean else mean, count=count),
+                                      why + " (accessor; NaN pixels must count as nodata)"))
     r1 = core.eval_cases("C16", "z", PRE, coq, "check_zonal", shard=30, scope="Z")
     ctx.cov["evaluations"] = len(coq) + len(big)
     ctx.cov["distinct_nontrivial"] = len(set(coq))
